@@ -1,4 +1,5 @@
 import WtfModel.Model.Search
+import WtfModel.Model.Modelled
 import WtfModel.Model.NormQ
 import WtfModel.Model.Legacy0
 import WtfModel.Model.Tfidf
@@ -78,29 +79,29 @@ def pairList? {α β} (s : String) (fa : String → Option α) (fb : String → 
     | [a, b] => do let x ← fa a; let y ← fb b; pure (x, y)
     | _ => none)
 
+/-- the parameter set of the end-to-end theorem (`Wtf.Search.modelledTuning`, Model/Modelled.lean), with the oracle tables
+    for what stays external (idf values, the normalised query, Go's order of the fuzzy matches) and a per-query memo of the
+    modelled NLP layer (a pure cache: `c.out = Boosts.nlpOut d.ri d.nlpCmds c.nq`) -/
 def tuning (d : DS) : Tuning Float :=
-  { params := genParams
-    idf := fun _ df => ((d.idf.find? (·.1 == df)).map (·.2)).getD 0.0
-    host := d.host
-    ri := d.ri
-    normQ := fun _ => d.nq
-    -- the NLP layer is the MODEL's (Model/Boosts.lean over Model/Nlp.lean): analysis of the normalised query and both
-    -- per-document factors.  The oracle lines `pq` / `ib` / `cb` (what the real code computed) are no longer inputs;
-    -- they are compared with the model's values when they are read (`oracleCheck`).
+  let fz := fun (ms : List (Nat × Int)) =>
+    -- Go's order, accepted only if it is a permutation of the model's matches, sorted by score
+    let sameSet := d.fz.length == ms.length && d.fz.all (fun x => ms.contains x) && ms.all (fun x => d.fz.contains x)
+    let sorted := (d.fz.zip (d.fz.drop 1)).all (fun (a, b) => a.2 ≥ b.2)
+    if sameSet && sorted then d.fz else []
+  -- the re-ranker is the MODEL's TF-IDF (Model/Tfidf.lean) whenever the real database has a searcher;
+  -- the oracle `tf` line only says whether one exists (and is compared separately by the `tfidf` op)
+  let base := modelledTuning (fun _ df => ((d.idf.find? (·.1 == df)).map (·.2)).getD 0.0) d.host d.ri (fun _ => d.nq) fz
+    Float.sqrt 0.01 (if d.tf.isSome then d.tfIdx else none) d.nlpCmds
+  { base with
     nlp := fun nq => match d.cache with
-      | some c => if c.nq == nq then c.out else Boosts.nlpOut d.ri d.nlpCmds nq
-      | none => Boosts.nlpOut d.ri d.nlpCmds nq
-    -- the re-ranker is the MODEL's TF-IDF (Model/Tfidf.lean) whenever the real database has a searcher;
-    -- the oracle `tf` line only says whether one exists (and is compared separately by the `tfidf` op)
+      | some c => if c.nq == nq then c.out else base.nlp nq
+      | none => base.nlp nq
+    -- `Tfidf.search … d.nlpCmds.length`: the limit is the number of commands; the case "searcher exists but the model index
+    -- was not built" arises only for searches without NLP, which never consult the re-ranker
     tfidf := match d.tf, d.tfIdx with
       | some _, some idx => some (fun nq => Tfidf.search d.ri Float.sqrt 0.01 idx nq d.db.size)
       | some l, none => some (fun _ => l)
-      | none, _ => none
-    fuzzySort := fun ms =>
-      -- Go's order, accepted only if it is a permutation of the model's matches, sorted by score
-      let sameSet := d.fz.length == ms.length && d.fz.all (fun x => ms.contains x) && ms.all (fun x => d.fz.contains x)
-      let sorted := (d.fz.zip (d.fz.drop 1)).all (fun (a, b) => a.2 ≥ b.2)
-      if sameSet && sorted then d.fz else [] }
+      | none, _ => none }
 
 def fmtBytesList (l : List Bytes) : String :=
   if l.isEmpty then "-" else ",".intercalate (l.map (fun b => if b.isEmpty then "_" else Bytes.toHex b))
